@@ -291,3 +291,12 @@ def this_calls_values(O):
     W = dri.WithRep(O, dri.Rep(R0.facts, R0.battery, lambda obs, sc: B.protocol_judge(obs, sc) or R0.judge(obs, sc)))
     C02.handle_io(W)
     C13.answer_passed_unchanged(W)
+
+
+@obligation("C03/kani-verdict-kernels", profiles=("dev",),
+            desc="second engine (Kani / CBMC over the compiled code): ExpectedValue::check / OutputValue::check for all tags and "
+                 "payloads; OutputResultEntry::check / is_checked and DataRow::failing_outputs on a row of two arbitrary entries "
+                 "(exactly the non-passing entries, in order, by identity)")
+def kani_verdict_kernels(O):
+    from . import kani_obs
+    kani_obs.verdict_kernels(O, "C03")
